@@ -8,3 +8,22 @@ package autog
 //@   requires monitor.m == nil
 //@   ensures monitor.m == nil
 //@   ensures_on_panic monitor.m == nil
+
+// ---------------------------------------------------------------------------
+// size options (C02). Func$N is the N-th function literal of Func in source order; here the inner literal that
+// is applied to every node. From the property: a listed node gets exactly its listed width and height, an unlisted
+// node keeps what it had (the fixed size or zero), and coordinates are never touched.
+
+//@ func WithNodeSize$2
+//@   requires n != nil
+//@   modifies graph.Node.W, graph.Node.H, graph.Node.X, graph.Node.Y
+//@   ensures[listed] has(sizes, n.ID) ==> n.W == sizes[n.ID].W && n.H == sizes[n.ID].H
+//@   ensures[unlisted] !has(sizes, n.ID) ==> n.W == old(n.W) && n.H == old(n.H)
+//@   ensures[position] n.X == old(n.X) && n.Y == old(n.Y)
+//@   ensures[others] forall m *graph.Node :: m != n ==> m.W == old(m.W) && m.H == old(m.H) && m.X == old(m.X) && m.Y == old(m.Y)
+
+//@ func WithNodeFixedSize$2
+//@   requires n != nil
+//@   modifies graph.Node.W, graph.Node.H
+//@   ensures n.W == w && n.H == h
+//@   ensures forall m *graph.Node :: m != n ==> m.W == old(m.W) && m.H == old(m.H)
